@@ -5,6 +5,7 @@ import (
 	"fmt"
 	"sort"
 	"strings"
+	"time"
 
 	smtp "github.com/emersion/go-smtp"
 
@@ -31,6 +32,12 @@ type c04Case struct {
 	// echo
 	Site  string `json:"site"`
 	Octet int    `json:"octet"`
+
+	// clock
+	TLS    string `json:"tls"`     // plain | implicit | starttls
+	RT     bool   `json:"rt"`      // Server.ReadTimeout set
+	WT     bool   `json:"wt"`      // Server.WriteTimeout set
+	FireAt int    `json:"fire_at"` // before which step of the conversation "a long time passes"
 }
 
 func init() {
@@ -83,6 +90,18 @@ func c04Run(ctx *core.Ctx) {
 				}
 			}
 		}
+		for _, tls := range []string{"plain", "implicit", "starttls"} {
+			for _, rt := range []bool{false, true} {
+				for _, wt := range []bool{false, true} {
+					if rt && wt {
+						continue // both configured: every armed deadline is legitimate
+					}
+					for at := 0; at < 7; at++ {
+						emit(c04Case{Kind: "clock", TLS: tls, RT: rt, WT: wt, FireAt: at, Mode: modeSMTP})
+					}
+				}
+			}
+		}
 	}, c04Exec)
 }
 
@@ -94,6 +113,106 @@ func c04Exec(ctx *core.Ctx, c c04Case) {
 		c04Overlap(ctx, c)
 	case "echo":
 		c04Echo(ctx, c)
+	case "clock":
+		c04Clock(ctx, c)
+	}
+}
+
+// c04Clock: a long time passes in the middle of a lively conversation. Only the timeouts the
+// server was configured with may have any effect: the deadline of a direction whose timeout is
+// unset must not be armed at all (e.g. left over from the TLS handshake), so firing it changes
+// nothing and every command still gets its reply.
+func c04Clock(ctx *core.Ctx, c c04Case) {
+	ctx.Eval(fmt.Sprintf("clock|%s|%v|%v|%d|%s", c.TLS, c.RT, c.WT, c.FireAt, c.Mode), true)
+	rig := newRig(c.Mode, func(s *smtp.Server) {
+		if c.RT {
+			s.ReadTimeout = time.Hour // virtual clock
+		}
+		if c.WT {
+			s.WriteTimeout = time.Hour
+		}
+		if c.TLS == "starttls" {
+			s.TLSConfig = wire.ServerTLS()
+		}
+	})
+	var p *wire.Peer
+	if c.TLS == "implicit" {
+		var err error
+		p, err = rig.DialTLS()
+		if err != nil {
+			p.Close()
+			rig.Finish()
+			ctx.Inconclusive("C04 clock: implicit TLS handshake failed: " + err.Error())
+			return
+		}
+	} else {
+		p = rig.Dial()
+	}
+	var all []wire.Reply
+	fail := func(sig, msg string) {
+		ctx.Violate(sig, msg+fmt.Sprintf(" [tls=%s ReadTimeout set=%v WriteTimeout set=%v time passes before step %d mode=%s]", c.TLS, c.RT, c.WT, c.FireAt, c.Mode), c, witness(rig.Log, all))
+	}
+	g, err := p.ReadReply()
+	all = append(all, g)
+	if err != nil {
+		p.Close()
+		rig.Finish()
+		fail("C04:clock-greeting", fmt.Sprintf("no greeting: %v", err))
+		return
+	}
+	steps := []struct {
+		send string
+		want []int
+	}{
+		{c.Mode.hello() + "\r\n", []int{250}},
+		{"MAIL FROM:<s@x.test>\r\n", []int{250}},
+		{"RCPT TO:<r@x.test>\r\n", []int{250}},
+		{"DATA\r\n", []int{354}},
+		{"body\r\n.\r\n", []int{250}},
+		{"NOOP\r\n", []int{250}},
+		{"QUIT\r\n", []int{221}},
+	}
+	if c.TLS == "starttls" {
+		p.SendStr(c.Mode.hello() + "\r\nSTARTTLS\r\n")
+		rs, err := expect(p, 2)
+		all = append(all, rs...)
+		if err != nil || rs[1].Code != 220 || p.StartTLSClient() != nil {
+			p.Close()
+			rig.Finish()
+			ctx.Inconclusive("C04 clock: STARTTLS failed")
+			return
+		}
+		p.Raw.WaitPeerIdle(wire.Watchdog)
+	}
+	for i, st := range steps {
+		if i == c.FireAt {
+			p.Raw.WaitPeerIdle(wire.Watchdog)
+			var fired []string
+			if !c.RT && p.SrvEnd.FireReadDeadline() {
+				fired = append(fired, "read")
+			}
+			if !c.WT && p.SrvEnd.FireWriteDeadline() {
+				fired = append(fired, "write")
+			}
+			if len(fired) > 0 {
+				rig.Log.Act("a deadline was armed for a direction without timeout; fired: " + strings.Join(fired, ", "))
+			}
+		}
+		p.SendStr(st.send)
+		rs, err := p.ReadUntilStall()
+		all = append(all, rs...)
+		if len(rs) != len(st.want) || rs[0].Code != st.want[0] {
+			p.Close()
+			rig.Finish()
+			fail("C04:reply-lost-to-stale-deadline", fmt.Sprintf("step %d (%q) was answered %s (%v), expected %v", i, st.send, codes(rs), err, st.want))
+			return
+		}
+	}
+	p.Close()
+	rig.Finish()
+	ctx.Add("replies_parsed", int64(len(all)))
+	if ctx.WantSample("clock/" + c.TLS) {
+		ctx.Sample("clock/"+c.TLS, map[string]any{"tls": c.TLS, "read_timeout": c.RT, "write_timeout": c.WT, "time_passes_before_step": c.FireAt, "replies": codes(all)})
 	}
 }
 
